@@ -6,7 +6,7 @@ TIMEOUT_S = 1200
 RULE = ('same structural lattice of 1-D spaces as C07/C08; oracle = exact integrals over the domain of every basis function (open '
         'Newton-Cotes in Fractions) and exact weights w = A^-T I; compared with BSplines.integrals (periodic spaces after folding the '
         'wrapped duplicates, both storage conventions accepted) and get_quadrature_coefficients(), called twice on the same space '
-        '(state kept between calls) and on a fresh interpolator; sum(w)=b-a; all weights equal on uniform periodic spaces; w.u = exact '
+        '(state kept between calls) and on a fresh interpolator; the first returned array is kept (not copied) and re-checked after the same interpolator computed two interpolants; sum(w)=b-a; all weights equal on uniform periodic spaces; w.u = exact '
         'integral of the interpolant for every unit vector u; an evaluation is one (space, quantity); non-trivial = non-uniform, '
         'periodic or fast-path space')
 ASSUMPTIONS = ['tolerance 64*eps*||A^-1||_inf*(d+1)*(b-a)', 'periodic integrals are compared after folding integrals[k]+integrals[n+k]']
@@ -87,7 +87,9 @@ def _check(desc, tier, V, st):
         if nontriv:
             st['nontrivial'] += 1
         try:
-            w = np.asarray((itp if call < 3 else SplineInterpolator1D(bs)).get_quadrature_coefficients(), dtype=float)
+            w = (itp if call < 3 else SplineInterpolator1D(bs)).get_quadrature_coefficients()
+            if not (isinstance(w, np.ndarray) and w.dtype == float):
+                w = np.asarray(w, dtype=float)
         except Exception as e:  # noqa
             V('weights-exception:%s:%s' % (cls, type(e).__name__), '%s: %s: %s' % (key, type(e).__name__, e))
             return
@@ -103,6 +105,26 @@ def _check(desc, tier, V, st):
         elif S.per and len(set(desc['widths'])) == 1 and not (np.abs(w - w[0]).max() <= tolW):
             V('weights-unequal:%s%s' % (cls, tag), '%s: weights on a uniform periodic space are not all equal' % key)
         integrals_ok(':after-weights')
+        if call == 1:
+            held = w          # the caller keeps the array it was given (no copy)
+    # the interpolator is used for interpolation afterwards: the weights handed out before must still be the weights
+    try:
+        from pygyro.splines.splines import Spline1D
+        spl = Spline1D(bs)
+        pts = np.asarray(bs.greville, dtype=float)
+        for data in (np.cos(pts) + 2.0, np.eye(n)[n // 2] * 7.0):
+            itp.compute_interpolant(data, spl)
+        st['evals'] += 1
+        if nontriv:
+            st['nontrivial'] += 1
+        if held.shape != (n,) or not (np.abs(np.asarray(held, dtype=float) - wex).max() <= tolW):
+            V('weights-changed-by-later-interpolation:' + cls, '%s: the weights returned by get_quadrature_coefficients() were altered by a later compute_interpolant() '
+              'on the same interpolator (now off by %.3g)' % (key, np.abs(np.asarray(held, dtype=float) - wex).max() if held.shape == (n,) else float('nan')))
+        w2 = np.asarray(itp.get_quadrature_coefficients(), dtype=float)
+        if not (np.abs(w2 - wex).max() <= tolW):
+            V('weights:%s:after-interpolation' % cls, '%s: weights requested after an interpolation are off by %.3g' % (key, np.abs(w2 - wex).max()))
+    except Exception as e:  # noqa
+        V('weights-exception:%s:%s' % (cls, type(e).__name__), '%s: %s: %s' % (key, type(e).__name__, e))
 
 
 def run_case(case):
